@@ -20,7 +20,7 @@ Definition C09_full : Prop :=
   full gen_infer_chain gen_lit_chain gen_litfn_chain gen_tovalue_chain gen_primitive_mapping
        gen_cells_float_via_lit gen_sample_first_non_none.
 
-(** what is proved: the same with the boolean domain predicates [nul_free] (strings), [wf] (statement
+(** what is proved: the same with the boolean domain predicates [nul_free] (single literals), [wf] (statement
     templates), [col_member] = [supp] && [fits] and [uniform] (typed columns), [supp] (columns without a CAST)
     and [untyped_ok] (select(lit(v)): not an infinity) *)
 Theorem C09_partial :
@@ -57,11 +57,12 @@ Proof. vm_compute. reflexivity. Qed.
 
 (** refutations of the full statement on the faithful model (each replayed on the implementation by the check).
     The witnesses of the defects repaired in /repo (NaN literal as REAL, infinities outside lit(), nested
-    Decimal, first-row-only sampling) no longer refute it; they stay in the check's corpus. *)
+    Decimal, first-row-only sampling, U+0000 inside a literal) no longer refute it; they stay in the check's corpus. *)
 
-(** a string containing U+0000 cannot be written as a literal *)
-Theorem C09_refuted_nul : exists s rest, starts_with QS rest = false /\ lex_string (render_string s ++ rest) <> Some (s, rest).
-Proof. exists [97; 0; 98]%N, []. split; [reflexivity|]. vm_compute. discriminate. Qed.
+(** U+0000 still cannot stand inside a literal (the lexer stops there) -- which is why a str that contains it is
+    written as CONCAT of its NUL-free pieces and CHR(0) (no longer a refutation of the full statement) *)
+Example lexer_stops_at_nul : lex_string (render_string [97; 0; 98]%N) = None.
+Proof. vm_compute. reflexivity. Qed.
 
 (** lit(float('inf')) in select(): the literal is the string 'inf' and nothing casts it back *)
 Theorem C09_refuted_lit_inf : exists v, listed v = true /\ S None [v] <> want [v].
